@@ -224,6 +224,9 @@ func checkC04(c *Ctx) {
 	c.Rule("C04-R15", "after Resume exactly the modes the application had: EnableMouse records the flags it applies (after the no-argument default), not the raw argument")
 	c.Expect("C04-R15", 1)
 	checkMouseFlagsStoredAsApplied(c, p, "C04-R15", "tScreen")
+	c.Rule("C04-R17", "Fini and Suspend restore the terminal whatever the Tty reports: once the teardown has marked the screen as not running every way out passes Tty.Stop (an early return on a Drain error leaves every mode on, and the next Fini sees a screen that is not running)")
+	c.Expect("C04-R17", 1)
+	checkTeardownCompletes(c, p, "C04-R17")
 	c.Rule("C04-R16", "all writes before Stop: a frame is written by draw itself, with the screen's mutex held, so that the restore sequence of disengage cannot be overtaken by a frame still on its way (the flush is in draw, after the reset of the frame buffer; = C13-R16)")
 	c.Expect("C04-R16", 1)
 	checkFrameBufferStartsEmpty(c, p, "C04-R16")
